@@ -68,6 +68,34 @@ def field_writes(f, adt):
     return out
 
 
+def all_of_merge_rule(cx, rep, rid):
+    F = cx.rs
+    RT = "ast::runtype::Runtype"
+    ao = [f for f in F.fns.values() if f.impl_self == RT and f.name == "all_of" and f.id in F.hir]
+    if len(ao) != 1:
+        rep.anchor_missing(rid, "Runtype::all_of")
+    else:
+        tree = F.hir[ao[0].id]
+        # the merge keeps the last writer of a key (extend/insert into the accumulated key-value list):
+        # that is order-independent only if colliding values were compared for equality as stored
+        cmps = [n for n in walk(tree["body"]) if n["k"] == "Binary" and n["op"] in ("Ne", "Eq") and "Optionality" in (n["l"].get("ty") or "") + (n["r"].get("ty") or "")]
+        allc = [n for n in walk(tree["body"]) if n["k"] == "Binary" and n["op"] in ("Ne", "Eq") and n["l"]["k"] != "Lit" and n["r"]["k"] != "Lit"
+                and "usize" not in (n["l"].get("ty") or "")]
+        def plain(e):
+            while e["k"] in ("AddrOf", "Unary"):
+                e = e["e"]
+            return e["k"] == "Path" and e.get("res") == "local"
+        ok = len(cmps) >= 1 and all(plain(c["l"]) and plain(c["r"]) for c in cmps) and len(allc) == len(cmps)
+        rep.ob(rid, "all_of/collision-compares-stored-values", ok,
+               "Runtype::all_of merges object members with last-writer-wins; the collision test must compare the stored property values themselves (optionality included), found comparisons %s: members that differ in what is not compared are merged in source order, so `A & B` and `B & A` yield different validators" % (
+                   [(c["l"].get("ty"), c["l"]["k"], c["r"]["k"]) for c in allc]), ao[0].loc(), sample={"comparisons": len(cmps)})
+        ext = [n for n in walk(tree["body"]) if n["k"] == "MethodCall" and n["method"] in ("extend", "insert", "push") and "obj_kvs" in locals_in(n["recv"])]
+        early = [n for n in walk(tree["body"]) if n["k"] == "Ret"]
+        rep.ob(rid, "all_of/conflict-keeps-intersection", len(ext) >= 1 and len(early) >= 1 and any("AllOf" in (x.get("def") or "") for r in early for x in walk(r) if x["k"] in ("Call", "Path")),
+               "on a collision all_of must keep the members as an (order-free) AllOf set instead of merging", ao[0].loc())
+
+
+
 def run(cx, rep):
     F = cx.rs
     rep.explanation = (
@@ -202,28 +230,7 @@ def run(cx, rep):
                    "%s for %s is hand-written: the hoist key must compare all of its fields" % (i["trait"], i["self"]), "%s:%s" % (i["file"], i["line"]))
     # ---------------------------------------------------------------- C08.5
     rep.rule("C08.5", "merging intersection members into one object is order-independent")
-    ao = [f for f in F.fns.values() if f.impl_self == RT and f.name == "all_of" and f.id in F.hir]
-    if len(ao) != 1:
-        rep.anchor_missing("C08.5", "Runtype::all_of")
-    else:
-        tree = F.hir[ao[0].id]
-        # the merge keeps the last writer of a key (extend/insert into the accumulated key-value list):
-        # that is order-independent only if colliding values were compared for equality as stored
-        cmps = [n for n in walk(tree["body"]) if n["k"] == "Binary" and n["op"] in ("Ne", "Eq") and "Optionality" in (n["l"].get("ty") or "") + (n["r"].get("ty") or "")]
-        allc = [n for n in walk(tree["body"]) if n["k"] == "Binary" and n["op"] in ("Ne", "Eq") and n["l"]["k"] != "Lit" and n["r"]["k"] != "Lit"
-                and "usize" not in (n["l"].get("ty") or "")]
-        def plain(e):
-            while e["k"] in ("AddrOf", "Unary"):
-                e = e["e"]
-            return e["k"] == "Path" and e.get("res") == "local"
-        ok = len(cmps) >= 1 and all(plain(c["l"]) and plain(c["r"]) for c in cmps) and len(allc) == len(cmps)
-        rep.ob("C08.5", "all_of/collision-compares-stored-values", ok,
-               "Runtype::all_of merges object members with last-writer-wins; the collision test must compare the stored property values themselves (optionality included), found comparisons %s: members that differ in what is not compared are merged in source order, so `A & B` and `B & A` yield different validators" % (
-                   [(c["l"].get("ty"), c["l"]["k"], c["r"]["k"]) for c in allc]), ao[0].loc(), sample={"comparisons": len(cmps)})
-        ext = [n for n in walk(tree["body"]) if n["k"] == "MethodCall" and n["method"] in ("extend", "insert", "push") and "obj_kvs" in locals_in(n["recv"])]
-        early = [n for n in walk(tree["body"]) if n["k"] == "Ret"]
-        rep.ob("C08.5", "all_of/conflict-keeps-intersection", len(ext) >= 1 and len(early) >= 1 and any("AllOf" in (x.get("def") or "") for r in early for x in walk(r) if x["k"] in ("Call", "Path")),
-               "on a collision all_of must keep the members as an (order-free) AllOf set instead of merging", ao[0].loc())
+    all_of_merge_rule(cx, rep, "C08.5")
     # ---------------------------------------------------------------- C08.4
     rep.rule("C08.4", "digests (hash / hash256) read structure only and iterate keys in sorted order")
     from rules import ts_common
